@@ -150,10 +150,12 @@ def _convert(item):
             writers.numpy_to_sgz(p, cube, py_bits(st, n, d), s)
             src3 = cube
         else:
-            data = inputs.cube((6, 7), seed)
-            sgy = os.path.join(dd, 'l.sgy')
+            # traces longer than a sample block for the small block lengths (windows that start in a later block)
+            nz2 = 150 if 4 <= s[2] < 150 else 7
+            data = inputs.cube((6, nz2), seed)
+            sgy = os.path.join(dd, f'l{nz2}.sgy')
             if not os.path.exists(sgy):
-                inputs.write_segy_traces(sgy, data, np.arange(7) * 4.0, [{segyio.TraceField.CDP: t + 1} for t in range(6)])
+                inputs.write_segy_traces(sgy, data, np.arange(nz2) * 4.0, [{segyio.TraceField.CDP: t + 1} for t in range(6)])
             writers.segy_to_sgz(sgy, p, py_bits(st, n, d), s)
             src3 = data[None]
     except BaseException as e:
@@ -186,6 +188,19 @@ def _convert(item):
                     paths = paths and all(np.array_equal(r.read_inline(i), vol[i]) for i in {0, ni_ // 2, ni_ - 1})
                     paths = paths and all(np.array_equal(r.read_crossline(x), vol[:, x]) for x in {0, nx_ // 2, nx_ - 1})
                     paths = paths and np.array_equal(r.read_zslice(nz_ - 1), vol[:, :, nz_ - 1])
+                    ok = ok and paths
+        if dim == 2:            # whole traces and windows (starting in the first and in a later sample block) agree with the section
+            from seismic_zfp.read import SgzReader
+            with env.quiet():
+                with SgzReader(p) as r:
+                    sec = r.read_subplane(0, r.tracecount, 0, r.n_samples)
+                    nt_, nz_ = sec.shape
+                    bz = int(r.blockshape[2])
+                    paths = all(np.array_equal(r.get_trace(t), sec[t]) for t in range(nt_))
+                    for lo, hi in ((0, min(nz_, 5)), (1, nz_), (bz, nz_), (bz + 1, min(nz_, bz + 9)), (2 * bz, nz_), (nz_ - 3, nz_)):
+                        if 0 <= lo < hi <= nz_:
+                            paths = paths and np.array_equal(r.get_trace(nt_ - 1, lo, hi), sec[nt_ - 1, lo:hi])
+                            paths = paths and np.array_equal(r.read_subplane(1, nt_, lo, hi), sec[1:nt_, lo:hi])
                     ok = ok and paths
         return {'outcome': 'file', 'faithful': bool(ok), 'rate': str(meta['rate']), 'b': F['b'], 'H': H, 'n': list(src3.shape), 'headers_ok': hdr_ok}
     except BaseException as e:
